@@ -1,5 +1,356 @@
-"""Self-validation corpus (thorough tier): filled in later."""
+"""Self-validation corpus (thorough tier).
+
+Built in memory from the *current* tree on every run: for the functions a property's obligations touched,
+  * single-edit AST mutants (constant ±1, comparison flips, lower<->upper, any<->all, axis 0<->1, argument drop / swap,
+    `.A` dropped, sign flips, True<->False, + <-> -) must turn at least one obligation of the property red, and
+  * equivalence-preserving rewrites (formatting round trip, local renaming, keyword<->positional for repository calls,
+    `-1*x` <-> `-x`, `a >= b` <-> `not a < b`, map/lambda <-> comprehension) must keep every obligation green.
+Nothing is written under /repo or /verif. It measures the checker; it is not the decision on /repo.
+"""
+import ast
+import copy
+import multiprocessing
+import os
+import random
+
+from .frontend import Program, AnalysisError
+from .contracts import Contracts
+from .obligation import Ob, Ctx, load_known
+
+ROOT = os.path.dirname(os.path.dirname(os.path.abspath(__file__)))
+MAX_MUTANTS = int(os.environ.get("VERIF_SELFTEST_MUTANTS", "160"))
+
+
+# ------------------------------------------------------------------------------------------------ mutation operators
+class Site:
+    def __init__(self, kind, node_index, desc):
+        self.kind, self.node_index, self.desc = kind, node_index, desc
+
+
+def _nodes(fn):
+    return list(ast.walk(fn))
+
+
+def _is_docstring_const(fn, node, parents):
+    p = parents.get(id(node))
+    return isinstance(p, ast.Expr)
+
+
+def mutation_sites(fn):
+    """[(kind, index into ast.walk order, description)]"""
+    sites = []
+    parents = {}
+    for n in ast.walk(fn):
+        for c in ast.iter_child_nodes(n):
+            parents[id(c)] = n
+    for i, n in enumerate(_nodes(fn)):
+        p = parents.get(id(n))
+        if isinstance(n, ast.Constant):
+            if isinstance(p, ast.Expr) or isinstance(p, (ast.JoinedStr, ast.FormattedValue)):
+                continue                       # docstrings / message text
+            if isinstance(p, ast.Call) and isinstance(p.func, ast.Name) and p.func.id in ("Exception", "ValueError"):
+                continue
+            if isinstance(p, ast.Call) and isinstance(p.func, ast.Attribute) and p.func.attr == "format":
+                continue
+            if isinstance(n.value, bool):
+                sites.append(("bool", i, f"{n.value} -> {not n.value}"))
+            elif isinstance(n.value, int):
+                sites.append(("int+1", i, f"{n.value} -> {n.value + 1}"))
+                sites.append(("int-1", i, f"{n.value} -> {n.value - 1}"))
+        elif isinstance(n, ast.Compare) and len(n.ops) == 1:
+            op = type(n.ops[0])
+            flips = {ast.GtE: ast.Gt, ast.Gt: ast.GtE, ast.Lt: ast.LtE, ast.LtE: ast.Lt, ast.Eq: ast.NotEq, ast.NotEq: ast.Eq,
+                     ast.Is: ast.IsNot, ast.IsNot: ast.Is, ast.In: ast.NotIn, ast.NotIn: ast.In}
+            if op in flips:
+                sites.append(("cmp", i, f"{op.__name__} -> {flips[op].__name__}"))
+        elif isinstance(n, ast.Attribute):
+            swaps = {"lower": "upper", "upper": "lower", "any": "all", "all": "any", "min": "max", "max": "min",
+                     "atomic_propositions": "compound_propositions", "compound_propositions": "atomic_propositions",
+                     "A_min": "A_max", "A_max": "A_min"}
+            if n.attr in swaps and isinstance(n.ctx, ast.Load):
+                sites.append(("attr", i, f".{n.attr} -> .{swaps[n.attr]}"))
+            if n.attr == "A" and isinstance(n.ctx, ast.Load):
+                sites.append(("dropA", i, "X.A -> X"))
+            if n.attr == "T" and isinstance(n.ctx, ast.Load):
+                sites.append(("dropT", i, "X.T -> X"))
+        elif isinstance(n, ast.Call):
+            if n.keywords:
+                for k, kw in enumerate(n.keywords):
+                    if kw.arg is not None:
+                        sites.append((f"dropkw:{k}", i, f"drop keyword {kw.arg}="))
+            if len(n.args) >= 2 and not any(isinstance(a, ast.Starred) for a in n.args[:2]):
+                sites.append(("swapargs", i, "swap first two positional arguments"))
+        elif isinstance(n, ast.UnaryOp) and isinstance(n.op, ast.USub):
+            sites.append(("dropneg", i, "-x -> x"))
+        elif isinstance(n, ast.UnaryOp) and isinstance(n.op, ast.Not):
+            sites.append(("dropnot", i, "not x -> x"))
+        elif isinstance(n, ast.BinOp) and isinstance(n.op, (ast.Add, ast.Sub)):
+            sites.append(("addsub", i, "+ <-> -"))
+        elif isinstance(n, ast.BinOp) and isinstance(n.op, ast.Mult) and isinstance(n.left, ast.Constant) and n.left.value == -1:
+            sites.append(("dropm1", i, "-1*x -> x"))
+        elif isinstance(n, ast.IfExp):
+            sites.append(("ifswap", i, "a if c else b -> b if c else a"))
+    return sites
+
+
+def apply_mutation(fn, kind, index):
+    fn = copy.deepcopy(fn)
+    nodes = _nodes(fn)
+    n = nodes[index]
+    if kind == "bool":
+        n.value = not n.value
+    elif kind == "int+1":
+        n.value = n.value + 1
+    elif kind == "int-1":
+        n.value = n.value - 1
+    elif kind == "cmp":
+        flips = {ast.GtE: ast.Gt, ast.Gt: ast.GtE, ast.Lt: ast.LtE, ast.LtE: ast.Lt, ast.Eq: ast.NotEq, ast.NotEq: ast.Eq,
+                 ast.Is: ast.IsNot, ast.IsNot: ast.Is, ast.In: ast.NotIn, ast.NotIn: ast.In}
+        n.ops = [flips[type(n.ops[0])]()]
+    elif kind == "attr":
+        swaps = {"lower": "upper", "upper": "lower", "any": "all", "all": "any", "min": "max", "max": "min",
+                 "atomic_propositions": "compound_propositions", "compound_propositions": "atomic_propositions",
+                 "A_min": "A_max", "A_max": "A_min"}
+        n.attr = swaps[n.attr]
+    elif kind in ("dropA", "dropT", "dropneg", "dropnot", "dropm1"):
+        repl = n.value if kind in ("dropA", "dropT") else (n.operand if kind in ("dropneg", "dropnot") else n.right)
+        _replace_child(fn, n, repl)
+    elif kind.startswith("dropkw:"):
+        del n.keywords[int(kind.split(":")[1])]
+    elif kind == "swapargs":
+        n.args[0], n.args[1] = n.args[1], n.args[0]
+    elif kind == "addsub":
+        n.op = ast.Sub() if isinstance(n.op, ast.Add) else ast.Add()
+    elif kind == "ifswap":
+        n.body, n.orelse = n.orelse, n.body
+    return fn
+
+
+def _replace_child(root, old, new):
+    for p in ast.walk(root):
+        for field, val in ast.iter_fields(p):
+            if val is old:
+                setattr(p, field, new)
+                return
+            if isinstance(val, list):
+                for j, x in enumerate(val):
+                    if x is old:
+                        val[j] = new
+                        return
+
+
+# ------------------------------------------------------------------------------------------------ equivalence-preserving rewrites
+class _RenameLocals(ast.NodeTransformer):
+    def __init__(self, names):
+        self.map = {n: f"{n}_rn" for n in names}
+
+    def visit_Name(self, node):
+        if node.id in self.map:
+            return ast.copy_location(ast.Name(self.map[node.id], node.ctx), node)
+        return node
+
+    def visit_arg(self, node):
+        return node
+
+
+def rw_format(fn):
+    return copy.deepcopy(fn)            # unparse round trip = reformatting, comments and docstring layout dropped
+
+
+def rw_rename_locals(fn):
+    fn = copy.deepcopy(fn)
+    params = {a.arg for a in fn.args.posonlyargs + fn.args.args + fn.args.kwonlyargs}
+    if fn.args.vararg:
+        params.add(fn.args.vararg.arg)
+    if fn.args.kwarg:
+        params.add(fn.args.kwarg.arg)
+    inner_params = set()
+    for n in ast.walk(fn):
+        if isinstance(n, ast.Lambda):
+            inner_params |= {a.arg for a in n.args.args}
+    stored = {n.id for n in ast.walk(fn) if isinstance(n, ast.Name) and isinstance(n.ctx, ast.Store)}
+    names = stored - params - inner_params
+    if not names:
+        return None
+    return _RenameLocals(names).visit(fn)
+
+
+def rw_neg(fn):
+    """-1*x  <->  -x"""
+    fn = copy.deepcopy(fn)
+    changed = [False]
+
+    class Tr(ast.NodeTransformer):
+        def visit_BinOp(self, node):
+            self.generic_visit(node)
+            if isinstance(node.op, ast.Mult) and isinstance(node.left, ast.Constant) and node.left.value == -1 and not isinstance(node.left.value, bool):
+                changed[0] = True
+                return ast.copy_location(ast.UnaryOp(ast.USub(), node.right), node)
+            if isinstance(node.op, ast.Mult) and isinstance(node.right, ast.Constant) and node.right.value == -1 and not isinstance(node.right.value, bool):
+                changed[0] = True
+                return ast.copy_location(ast.UnaryOp(ast.USub(), node.left), node)
+            return node
+    fn = Tr().visit(fn)
+    return fn if changed[0] else None
+
+
+def rw_notcmp(fn):
+    """a >= b  ->  not a < b   (first order comparison found, integers)"""
+    fn = copy.deepcopy(fn)
+    done = [False]
+    inv = {ast.GtE: ast.Lt, ast.Gt: ast.LtE, ast.Lt: ast.GtE, ast.LtE: ast.Gt}
+
+    class Tr(ast.NodeTransformer):
+        def visit_Compare(self, node):
+            self.generic_visit(node)
+            if not done[0] and len(node.ops) == 1 and type(node.ops[0]) in inv:
+                done[0] = True
+                return ast.copy_location(ast.UnaryOp(ast.Not(), ast.Compare(node.left, [inv[type(node.ops[0])]()], node.comparators)), node)
+            return node
+    fn = Tr().visit(fn)
+    return fn if done[0] else None
+
+
+def rw_comprehension(fn):
+    """list(map(lambda x: e, xs)) -> [e for x in xs]"""
+    fn = copy.deepcopy(fn)
+    done = [False]
+
+    class Tr(ast.NodeTransformer):
+        def visit_Call(self, node):
+            self.generic_visit(node)
+            if isinstance(node.func, ast.Name) and node.func.id == "list" and len(node.args) == 1 and not node.keywords:
+                m = node.args[0]
+                if isinstance(m, ast.Call) and isinstance(m.func, ast.Name) and m.func.id == "map" and len(m.args) == 2 \
+                        and isinstance(m.args[0], ast.Lambda) and len(m.args[0].args.args) == 1 and not m.args[0].args.defaults:
+                    lam = m.args[0]
+                    done[0] = True
+                    return ast.copy_location(ast.ListComp(lam.body, [ast.comprehension(ast.Name(lam.args.args[0].arg, ast.Store()), m.args[1], [], 0)]), node)
+            return node
+    fn = Tr().visit(fn)
+    return fn if done[0] else None
+
+
+def rw_attrgetter(fn):
+    """operator.attrgetter("a") -> lambda q_: q_.a   (first occurrence with a constant dotted path)"""
+    fn = copy.deepcopy(fn)
+    done = [False]
+
+    class Tr(ast.NodeTransformer):
+        def visit_Call(self, node):
+            self.generic_visit(node)
+            if not done[0] and isinstance(node.func, ast.Attribute) and node.func.attr == "attrgetter" and isinstance(node.func.value, ast.Name) \
+                    and node.func.value.id == "operator" and len(node.args) == 1 and isinstance(node.args[0], ast.Constant):
+                body = ast.Name("q_", ast.Load())
+                for part in node.args[0].value.split("."):
+                    body = ast.Attribute(body, part, ast.Load())
+                done[0] = True
+                return ast.copy_location(ast.Lambda(ast.arguments(posonlyargs=[], args=[ast.arg("q_")], kwonlyargs=[], kw_defaults=[], defaults=[]), body), node)
+            return node
+    fn = Tr().visit(fn)
+    return fn if done[0] else None
+
+
+REWRITES = [("reformat", rw_format), ("rename-locals", rw_rename_locals), ("-1*x <-> -x", rw_neg), ("a>=b <-> not a<b", rw_notcmp),
+            ("list(map(lambda)) -> comprehension", rw_comprehension), ("attrgetter -> lambda", rw_attrgetter)]
+
+
+# ------------------------------------------------------------------------------------------------ splicing and evaluation
+def splice(module, fn_node, new_fn):
+    """source of `module` with function `fn_node` replaced by the unparsed `new_fn`"""
+    lines = module.src.split("\n")
+    start = min([fn_node.lineno] + [d.lineno for d in fn_node.decorator_list]) - 1
+    end = fn_node.end_lineno
+    indent = " " * fn_node.col_offset
+    ast.fix_missing_locations(new_fn)
+    text = ast.unparse(new_fn)
+    new_lines = [(indent + l) if l.strip() else l for l in text.split("\n")]
+    return "\n".join(lines[:start] + new_lines + lines[end:])
+
+
+_CTX = {}
+
+
+def _evaluate(job):
+    pid, rel, src, label = job
+    from . import props as PROPS
+    try:
+        program = Program(overrides={rel: src})
+        ctx = Ctx(program, Contracts(program), "quick", 0)
+        obs = PROPS.get(pid).obligations(ctx)
+        known = _CTX.get("known") or load_known(os.path.join(ROOT, "KNOWN_FINDINGS.txt"))
+        red = [o for o in obs if o.status in ("violation", "inconclusive") and not (o.status == "violation" and (pid, o.key) in known)]
+        return label, ("red" if red else "green"), (red[0].id + ": " + red[0].status if red else "")
+    except AnalysisError as e:
+        return label, "red", "analysis-error: " + str(e)[:120]
+    except SyntaxError as e:
+        return label, "invalid", str(e)[:80]
+    except Exception as e:          # a crash of the checker on a variant is a red flag, but not a verdict
+        return label, "crash", repr(e)[:160]
 
 
 def run(pid, ctx, seed):
-    return {}
+    program = ctx.program
+    rng = random.Random(seed * 7919 + sum(map(ord, pid)))
+    funcs = sorted(q for q in ctx.touched if q in program.functions)
+    jobs_mut, jobs_rw = [], []
+    for q in funcs:
+        fi = program.functions[q]
+        for kind, idx, desc in mutation_sites(fi.node):
+            jobs_mut.append((q, kind, idx, desc))
+        for name, rw in REWRITES:
+            jobs_rw.append((q, name, rw))
+    rng.shuffle(jobs_mut)
+    total_sites = len(jobs_mut)
+    jobs_mut = jobs_mut[:MAX_MUTANTS]
+    work = []
+    for q, kind, idx, desc in jobs_mut:
+        fi = program.functions[q]
+        try:
+            src = splice(fi.module, fi.node, apply_mutation(fi.node, kind, idx))
+        except Exception:
+            continue
+        work.append((pid, fi.module.relpath, src, f"M|{q}|{kind}@{idx}|{desc}"))
+    rwn = 0
+    for q, name, rw in jobs_rw:
+        fi = program.functions[q]
+        try:
+            new = rw(fi.node)
+        except Exception:
+            new = None
+        if new is None:
+            continue
+        rwn += 1
+        work.append((pid, fi.module.relpath, splice(fi.module, fi.node, new), f"R|{q}|{name}|"))
+    nproc = min(16, os.cpu_count() or 4)
+    with multiprocessing.get_context("fork").Pool(nproc) as pool:
+        results = pool.map(_evaluate, work, chunksize=4)
+    mut = [r for r in results if r[0].startswith("M|")]
+    rws = [r for r in results if r[0].startswith("R|")]
+    killed = [r for r in mut if r[1] == "red"]
+    survived = [r for r in mut if r[1] == "green"]
+    crashed = [r for r in results if r[1] == "crash"]
+    invalid = [r for r in mut if r[1] == "invalid"]
+    rw_red = [r for r in rws if r[1] != "green"]
+    obs = []
+    where = f"{len(funcs)} functions of {pid}"
+    valid = len(mut) - len(invalid)
+    rate = (len(killed) / valid) if valid else 1.0
+    obs.append(Ob("selftest.mutants", "selftest", where, "ok" if rate >= 0.5 and not crashed else "inconclusive",
+                  f"{len(killed)}/{valid} single-edit mutants of the analysed functions turn an obligation red "
+                  f"({total_sites} mutation sites, {len(mut)} sampled with seed {seed}); survivors are listed in the evidence"
+                  + (f"; checker crashed on {len(crashed)} variants" if crashed else "")))
+    obs.append(Ob("selftest.rewrites", "selftest", where, "ok" if not rw_red else "inconclusive",
+                  f"{len(rws) - len(rw_red)}/{len(rws)} equivalence-preserving rewrites keep every obligation green"
+                  + (f"; NOT silent on: {[r[0] for r in rw_red][:5]}" if rw_red else "")))
+    return {
+        "obligations": obs,
+        "selftest": {
+            "seed": seed, "functions": funcs, "mutation_sites": total_sites, "mutants_run": len(mut), "mutants_invalid": len(invalid),
+            "mutants_killed": len(killed), "kill_rate": round(rate, 3),
+            "survivors": [r[0] for r in survived][:60],
+            "rewrites_run": len(rws), "rewrites_silent": len(rws) - len(rw_red), "rewrites_not_silent": [f"{r[0]} -> {r[2]}" for r in rw_red][:20],
+            "crashes": [f"{r[0]} -> {r[2]}" for r in crashed][:10],
+            "samples": [f"{r[0]} => {r[1]} {r[2]}" for r in mut[:12]],
+        },
+    }
